@@ -217,12 +217,9 @@ func (grid *RegularGrid) IntersectQuad(r Ray) (*Quad, float32) {
 	for {
 		hitPoint := Add(newRay.From, Mul(rayDir, t))
 
-		cellX := (uint)(math.Floor((float64)(hitPoint.x-grid.Min.x) / (float64)(grid.Resolution)))
-		cellY := (uint)(math.Floor((float64)(hitPoint.z-grid.Min.z) / (float64)(grid.Resolution)))
-
 		// clamp to bounds
-		cellX = (uint)(math.Min((float64)(cellX), (float64)(len(grid.Grid[0])-1)))
-		cellX = (uint)(math.Min((float64)(cellY), (float64)(len(grid.Grid)-1)))
+		cellX := clampCellIndex(math.Floor((float64)(hitPoint.x-grid.Min.x)/(float64)(grid.Resolution)), len(grid.Grid[0]))
+		cellY := clampCellIndex(math.Floor((float64)(hitPoint.z-grid.Min.z)/(float64)(grid.Resolution)), len(grid.Grid))
 
 		tMin := (float32)(math.Inf(1))
 		var resultQuad *Quad
@@ -239,11 +236,17 @@ func (grid *RegularGrid) IntersectQuad(r Ray) (*Quad, float32) {
 		}
 
 		// pick next t:
+		next := t + deltaTY
 		if t+deltaTX < t+deltaTY {
-			t += deltaTX
-		} else {
-			t += deltaTY
+			next = t + deltaTX
 		}
+
+		// stop when the ray parameter does not advance anymore (step too
+		// small for float32, zero, negative or NaN):
+		if !(next > t) {
+			break
+		}
+		t = next
 
 		if t > 1 || math.IsInf((float64)(t), 0) || math.IsNaN((float64)(t)) {
 			break
@@ -251,6 +254,17 @@ func (grid *RegularGrid) IntersectQuad(r Ray) (*Quad, float32) {
 	}
 
 	return nil, -1
+}
+
+// clampCellIndex converts a cell coordinate to an index in [0, count[.
+func clampCellIndex(coord float64, count int) int {
+	if !(coord > 0) {
+		return 0
+	}
+	if coord > (float64)(count-1) {
+		return count - 1
+	}
+	return (int)(coord)
 }
 
 func (grid *RegularGrid) GetRegion(min Vector3f, max Vector3f) []*Quad {
